@@ -10,6 +10,8 @@ EXTENDS Naturals, Sequences, FiniteSets, TLC
 
 CONSTANTS Callbacks,   \* names of callback functions; a callback whose name is in Returning returns its name
           Returning,   \* callbacks that return a non-None result (matters for emit_until_result)
+          OneShot,     \* callbacks that disconnect their own listener (by id) when they are called
+          Tags,        \* values of the extra keyword argument a listener may be connected with (0 = none)
           Prios,       \* priorities offered to connect
           MaxId,       \* bound on the id counter per handler
           MaxOps       \* bound on the number of operations of a behaviour
@@ -29,7 +31,7 @@ VARIABLES lst,      \* lst[h]  : Seq of [id, cb, prio]     (EventHandler.listene
 vars == <<lst, ctr, alive, conn, tick, last, nops, hist>>
 AbsView == <<lst, ctr, alive, conn, tick, last, nops>>
 
-Listener(i, c, p) == [id |-> i, cb |-> c, prio |-> p]
+Listener(i, c, p, kw) == [id |-> i, cb |-> c, prio |-> p, kw |-> kw]
 
 \* stable sort by descending priority == what sorted(key=-priority) does
 RECURSIVE InsertStable(_, _)
@@ -51,7 +53,7 @@ SortStable(s) == IF s = <<>> THEN <<>> ELSE
 RECURSIVE OrderOf(_)
 OrderOf(S) == IF S = {} THEN <<>> ELSE
     LET best == CHOOSE x \in S : \A y \in S : x.prio > y.prio \/ (x.prio = y.prio /\ x.seq <= y.seq)
-    IN <<Listener(best.id, best.cb, best.prio)>> \o OrderOf(S \ {best})
+    IN <<Listener(best.id, best.cb, best.prio, best.kw)>> \o OrderOf(S \ {best})
 
 RemoveAt(s, i) == SubSeq(s, 1, i - 1) \o SubSeq(s, i + 1, Len(s))
 
@@ -64,13 +66,14 @@ Init == /\ lst = [h \in Handlers |-> <<>>]
         /\ nops = 0
         /\ hist = <<>>
 
-Connect(h, c, p) ==
+\* form: connect(callback, priority, extra_kwargs) or the decorator form @connect(priority=..., extra_kwargs=...)
+Connect(h, c, p, kw, form) ==
     /\ alive[h] /\ ctr[h] < MaxId
-    /\ lst' = [lst EXCEPT ![h] = Append(@, Listener(ctr[h], c, p))]
-    /\ conn' = [conn EXCEPT ![h] = @ \cup {[id |-> ctr[h], cb |-> c, prio |-> p, seq |-> tick]}]
+    /\ lst' = [lst EXCEPT ![h] = Append(@, Listener(ctr[h], c, p, kw))]
+    /\ conn' = [conn EXCEPT ![h] = @ \cup {[id |-> ctr[h], cb |-> c, prio |-> p, kw |-> kw, seq |-> tick]}]
     /\ ctr' = [ctr EXCEPT ![h] = @ + 1]
     /\ tick' = tick + 1
-    /\ last' = [op |-> "connect", h |-> h, cb |-> c, prio |-> p, id |-> ctr[h]]
+    /\ last' = [op |-> "connect", h |-> h, cb |-> c, prio |-> p, id |-> ctr[h], kw |-> kw, form |-> form]
     /\ UNCHANGED alive
 
 \* disconnect(listener_id): delete the first listener with that id; warn if there is none
@@ -85,24 +88,31 @@ Disconnect(h, i) ==
             /\ last' = [op |-> "disconnect", h |-> h, id |-> i, found |-> TRUE]
     /\ UNCHANGED <<ctr, alive, tick>>
 
-CallsOf(s) == [k \in 1..Len(s) |-> s[k].cb]
+CallsOf(s) == [k \in 1..Len(s) |-> <<s[k].cb, s[k].kw>>]
+\* listeners whose callback disconnects itself are gone after they were called; every listener that was connected when
+\* the emit started is called (a self-disconnecting listener must not make the handler skip its successor)
+KeepAfter(s, ncalled) == SelectSeq([k \in 1..Len(s) |-> [x |-> s[k], k |-> k]], LAMBDA e : ~(e.k <= ncalled /\ e.x.cb \in OneShot))
+Strip(t) == [k \in 1..Len(t) |-> t[k].x]
+GoneIds(s, ncalled) == {s[k].id : k \in {j \in 1..Len(s) : j <= ncalled /\ s[j].cb \in OneShot}}
 
 Emit(h) ==
     /\ alive[h]
-    /\ lst' = [lst EXCEPT ![h] = SortStable(@)]              \* _prepare_emit
-    /\ last' = [op |-> "emit", h |-> h, calls |-> CallsOf(SortStable(lst[h])),
-                ids |-> [k \in 1..Len(lst[h]) |-> SortStable(lst[h])[k].id]]
-    /\ UNCHANGED <<ctr, alive, conn, tick>>
+    /\ LET s == SortStable(lst[h]) IN                        \* _prepare_emit
+       /\ lst' = [lst EXCEPT ![h] = Strip(KeepAfter(s, Len(s)))]
+       /\ conn' = [conn EXCEPT ![h] = {x \in @ : x.id \notin GoneIds(s, Len(s))}]
+       /\ last' = [op |-> "emit", h |-> h, calls |-> CallsOf(s), ids |-> [k \in 1..Len(s) |-> s[k].id]]
+    /\ UNCHANGED <<ctr, alive, tick>>
 
 EmitUntil(h) ==
     /\ alive[h]
-    /\ lst' = [lst EXCEPT ![h] = SortStable(@)]
     /\ LET s == SortStable(lst[h])
            hits == {k \in 1..Len(s) : s[k].cb \in Returning}
            stop == IF hits = {} THEN Len(s) ELSE CHOOSE k \in hits : \A j \in hits : k <= j
-       IN last' = [op |-> "emit_until_result", h |-> h, calls |-> CallsOf(SubSeq(s, 1, stop)),
-                   result |-> IF hits = {} THEN "None" ELSE s[stop].cb]
-    /\ UNCHANGED <<ctr, alive, conn, tick>>
+       IN /\ lst' = [lst EXCEPT ![h] = Strip(KeepAfter(s, stop))]
+          /\ conn' = [conn EXCEPT ![h] = {x \in @ : x.id \notin GoneIds(s, stop)}]
+          /\ last' = [op |-> "emit_until_result", h |-> h, calls |-> CallsOf(SubSeq(s, 1, stop)),
+                      result |-> IF hits = {} THEN "None" ELSE s[stop].cb]
+    /\ UNCHANGED <<ctr, alive, tick>>
 
 Copy ==
     /\ alive[1] /\ ~alive[2]
@@ -114,11 +124,12 @@ Copy ==
     /\ UNCHANGED tick
 
 \* abstract observable state after a step (what the replay harness projects the implementation to)
-Obs == [connected |-> [h \in Handlers |-> {<<x.id, x.cb, x.prio>> : x \in conn[h]}], ctr |-> ctr, alive |-> alive]
+Obs == [connected |-> [h \in Handlers |-> {<<x.id, x.cb, x.prio, x.kw>> : x \in conn[h]}], ctr |-> ctr, alive |-> alive]
 
 Step(A) == nops < MaxOps /\ nops' = nops + 1 /\ A /\ hist' = Append(hist, [l |-> last', o |-> Obs'])
 
-DoConnect    == Step(\E h \in Handlers, c \in Callbacks, p \in Prios : Connect(h, c, p))
+DoConnect    == Step(\E h \in Handlers, c \in Callbacks, p \in Prios, kw \in Tags, form \in {"call", "decorator"} :
+                       (form = "decorator" => kw # 0) /\ Connect(h, c, p, kw, form))
 DoDisconnect == Step(\E h \in Handlers, i \in 0..MaxId : Disconnect(h, i))
 DoEmit       == Step(\E h \in Handlers : Emit(h))
 DoEmitUntil  == Step(\E h \in Handlers : EmitUntil(h))
@@ -135,8 +146,7 @@ Spec == Init /\ [][Next]_vars
 EmitOrder == \A h \in Handlers : alive[h] => SortStable(lst[h]) = OrderOf(conn[h])
 
 \* what the last emit observably called is that order
-LastEmitRight ==
-    last.op = "emit" => last.calls = CallsOf(OrderOf(conn[last.h]))
+LastEmitRight == [][\A h \in Handlers : Emit(h) => last'.calls = CallsOf(OrderOf(conn[h]))]_vars
 
 \* ids are unique per handler
 UniqueIds == \A h \in Handlers : \A a, b \in 1..Len(lst[h]) : lst[h][a].id = lst[h][b].id => a = b
@@ -148,6 +158,10 @@ DisconnectExact ==
           /\ \A x \in conn'[h] : x \in conn[h] /\ x.id # i
           /\ \A g \in Handlers : g # h => conn'[g] = conn[g] ]_vars
 
-\* emit never changes who is connected
-EmitKeeps == [][ (\E h \in Handlers : Emit(h) \/ EmitUntil(h)) => conn' = conn ]_vars
+\* emit changes who is connected only through listeners that disconnected themselves while being called
+EmitKeeps == [][ (\E h \in Handlers : Emit(h) \/ EmitUntil(h)) =>
+                   \A g \in Handlers : /\ conn'[g] \subseteq conn[g]
+                                        /\ \A x \in conn[g] \ conn'[g] : x.cb \in OneShot /\ g = last'.h /\ <<x.cb, x.kw>> \in {last'.calls[k] : k \in 1..Len(last'.calls)} ]_vars
+\* every listener connected when an emit starts is called by it (in particular the successor of a self-disconnecting one)
+EmitCallsAll == [][ \A h \in Handlers : Emit(h) => Len(last'.calls) = Cardinality(conn[h]) ]_vars
 =============================================================================
